@@ -44,6 +44,10 @@ LOOPS = [
     ("ilog_body", "modules/io_drawer/ilog.py", "parse_ilog_data"),
     ("hlog_body", "modules/io_drawer/hlog.py", "parse_hlog_data"),
 ]
+# a method that builds its own DataStream and reads it in one `for _ in range(<constant>)` loop
+METHOD_LOOPS = [
+    ("trace_args", "modules/io_drawer/trace.py", "TraceEntry", "get_args"),
+]
 STREAM_FILES = ["modules/io_drawer/trace.py", "modules/io_drawer/ilog.py", "modules/io_drawer/hlog.py"]
 
 
@@ -138,9 +142,50 @@ class Tr:
             # a statement that neither mentions the stream nor leaves the block has no stream effect (formatting, appending a line);
             # a variable it assigns stays unbound in the program, so a later stream expression that needs it is an error
             if (self.in_loop and not any(self.is_stream(n) for n in ast.walk(st))
-                    and not any(isinstance(n, (ast.Return, ast.Continue, ast.Break, ast.Raise, ast.Yield)) for n in ast.walk(st))):
-                return "TPure"
+                    and not any(isinstance(n, (ast.Return, ast.Continue, ast.Break, ast.Raise, ast.Yield, ast.YieldFrom, ast.Await,
+                                               ast.FunctionDef, ast.ClassDef, ast.Lambda, ast.Global, ast.Nonlocal)) for n in ast.walk(st))):
+                return self.pure(st)
             raise
+
+    def pure(self, st):
+        """TPure, preceded by a TForget for every variable the statement may assign: a later stream expression that needs such a
+        variable finds it unbound (an error in the program, so the theorem fails) instead of reading a stale value.  A call of a
+        method of self could assign anything: refused."""
+        targets = []
+        for n in ast.walk(st):
+            if isinstance(n, ast.Call) and isinstance(n.func, ast.Attribute) and isinstance(n.func.value, ast.Name) and n.func.value.id == "self":
+                raise Unsupported("a method of self is called in a statement that is otherwise free of the stream: %s" % ast.unparse(n))
+            if isinstance(n, (ast.Assign, ast.Delete)):
+                targets += n.targets
+            elif isinstance(n, (ast.AugAssign, ast.AnnAssign, ast.NamedExpr, ast.For)):
+                targets.append(n.target)
+            elif isinstance(n, ast.With):
+                targets += [i.optional_vars for i in n.items if i.optional_vars is not None]
+            elif isinstance(n, ast.comprehension):
+                targets.append(n.target)
+            elif isinstance(n, (ast.Import, ast.ImportFrom)):
+                targets += [ast.Name((a.asname or a.name).split(".")[0], ast.Store()) for a in n.names]
+        names = []
+        for t in targets:
+            for e in (t.elts if isinstance(t, (ast.Tuple, ast.List)) else [t]):
+                if isinstance(e, ast.Starred):
+                    e = e.value
+                while isinstance(e, ast.Subscript):       # x[i] = ... changes the object x names, not what the program knows of x
+                    e = e.value
+                    if isinstance(e, (ast.Name, ast.Attribute)):
+                        e = None
+                        break
+                if e is None:
+                    continue
+                v = self.var(e)
+                if v is None:
+                    raise Unsupported("assignment target outside the fragment: %s" % ast.unparse(e))
+                if v not in names:
+                    names.append(v)
+        term = "TPure"
+        for v in reversed(names):
+            term = "(TSeq (TForget %s) %s)" % (T(v), term)
+        return term
 
     def stmt0(self, st):
         if isinstance(st, ast.Expr) and isinstance(st.value, ast.Constant) and isinstance(st.value.value, str):
@@ -158,8 +203,15 @@ class Tr:
             if isinstance(st.value, ast.Constant) and isinstance(st.value.value, bool):
                 return "(TRet %s)" % ("true" if st.value.value else "false")
             raise Unsupported("return of something other than True / False")
+        if isinstance(st, ast.If) and self.stream_call(st.test, "check_range"):
+            # if stream.check_range(e): A  else: B   is   if not stream.check_range(e): B  else: A
+            return "(TIf (CNoRange %s) %s %s)" % (self.ex(st.test.args[0]), self.block(st.orelse), self.block(st.body))
         if isinstance(st, ast.If):
             return "(TIf %s %s %s)" % (self.cond(st.test), self.block(st.body), self.block(st.orelse))
+        if (isinstance(st, ast.Expr) and isinstance(st.value, ast.Call) and isinstance(st.value.func, ast.Attribute)
+                and st.value.func.attr == "append" and isinstance(st.value.func.value, ast.Name) and len(st.value.args) == 1
+                and self.stream_call(st.value.args[0], "get_int") and not st.value.keywords):
+            return "(TAppendInt %s %s)" % (T(st.value.func.value.id), self.ex(st.value.args[0].args[0]))
         if isinstance(st, ast.Expr) and self.stream_call(st.value, "inc_index"):
             return "(TSkip %s)" % self.ex(st.value.args[0])
         if isinstance(st, ast.For):
@@ -369,6 +421,37 @@ def main():
             lines.append("Definition guard_%s : cd := CTruthy (XC 0)." % label)
             lines.append("Definition prog_%s_body : st := TUnknown.\n" % label)
     lines.append("Definition callee_progs : list (name * st) :=\n  [%s].\n" % "; ".join("(%s, prog_%s)" % (T(c), l) for c, l in CALLEES.items()))
+    for label, rel, cls, fn in METHOD_LOOPS:
+        try:
+            tree = ast.parse(open(os.path.join(ROOT, rel)).read())
+            f, consts = find(tree, cls, fn)
+            made = [n for n in ast.walk(f) if isinstance(n, ast.Assign) and isinstance(n.value, ast.Call)
+                    and isinstance(n.value.func, ast.Name) and n.value.func.id == "DataStream"]
+            loops = [n for n in ast.walk(f) if isinstance(n, (ast.For, ast.While))]
+            if len(made) != 1 or len(loops) != 1 or not isinstance(loops[0], ast.For) or loops[0].orelse:
+                raise Unsupported("%s.%s does not build one DataStream and read it in one for loop" % (cls, fn))
+            stream = made[0].targets[0].id
+            users = [n for n in ast.walk(f) if isinstance(n, ast.Name) and n.id == stream and isinstance(n.ctx, ast.Load)]
+            inside = [n for n in ast.walk(loops[0]) if isinstance(n, ast.Name) and n.id == stream]
+            if len(users) != len(inside):
+                raise Unsupported("%s.%s uses its stream outside the loop" % (cls, fn))
+            it = loops[0].iter
+            if not (isinstance(it, ast.Call) and isinstance(it.func, ast.Name) and it.func.id == "range" and len(it.args) == 1):
+                raise Unsupported("the loop of %s.%s is not for _ in range(<count>)" % (cls, fn))
+            tr = Tr(consts, stream)
+            tr.in_loop = True
+            term = "(TRepeat %s %s)" % (tr.ex(it.args[0]), tr.block(loops[0].body))
+            for u in tr.unknown:
+                sys.stderr.write("extract_readers: %s.%s: %s\n" % (cls, fn, u))
+                lines.append("(* outside the fragment: %s *)" % u.replace("*)", "* )").replace("(*", "( *")[:200])
+            lines.append("Definition data_of_%s : list N := %s." % (label, T(ast.unparse(made[0].value.args[0]))))
+            lines.append("Definition prog_%s : st :=\n  %s.\n" % (label, term))
+        except (Unsupported, OSError, SyntaxError) as e:
+            sys.stderr.write("extract_readers: %s: %s\n" % (label, e))
+            ok = False
+            lines.append("(* STUB: %s *)" % str(e).replace("*)", "* )").replace("(*", "( *")[:300])
+            lines.append("Definition data_of_%s : list N := []." % label)
+            lines.append("Definition prog_%s : st := TUnknown.\n" % label)
     for label, rel, fn in LOOPS:
         try:
             tree = ast.parse(open(os.path.join(ROOT, rel)).read())
